@@ -29,7 +29,7 @@ def main():
                     b = run()
                 except Exception as exc:     # noqa: BLE001
                     a = b = f'EXC {type(exc).__name__}: {exc}'
-                out[name] = {'t': a, 'repeat_same': a == b}
+                out[name] = {'t': a, 'repeat_same': a == b, 'raised': isinstance(a, str) and a.startswith('EXC ')}
             # histories: the ':warm' run (reads before the database changes) must report what the ':cold' one does
             out['__history__'] = [nm for nm in out if nm.endswith(':warm')
                                   and out[nm]['t'] != out.get(nm[:-5] + ':cold', {}).get('t')]
